@@ -953,7 +953,11 @@ func genDefrag(g *vlib.Rng, name string, c int, pages int, pattern int) *Trace {
 	}
 	switch pattern {
 	case 0: // uniform random, fraction 50..95 %
-		pc := 50 + g.Intn(46)
+		lo := 1400/pages + 3 // enough to pass the 12-page threshold in most cases
+		if lo > 95 || g.Chance(1, 6) {
+			lo = 50
+		}
+		pc := lo + g.Intn(96-lo)
 		for i := 0; i < n; i++ {
 			if g.Intn(100) < pc {
 				free(i)
@@ -1423,7 +1427,7 @@ func main() {
 
 	only := os.Getenv("C20_ONLY") // profiling aid: run one stream only
 	// 2. mixed traces over all classes
-	for i := 0; i < r.N(12, 60) && (only == "" || only == "mixed"); i++ {
+	for i := 0; i < r.N(20, 110) && (only == "" || only == "mixed"); i++ {
 		tr := genMixed(g, fmt.Sprintf("mixed#%d", i), r.N(600, 4000), bs)
 		runTrace(tr, 1)
 		if i == 0 {
@@ -1431,7 +1435,7 @@ func main() {
 		}
 	}
 	// 3. single-class traces (free-list reuse, page fill)
-	for i := 0; i < r.N(10, 50) && (only == "" || only == "class"); i++ {
+	for i := 0; i < r.N(16, 80) && (only == "" || only == "class"); i++ {
 		c := g.Intn(len(slots))
 		if i%3 == 0 {
 			c = len(slots) - 1 - g.Intn(12) // few slots per page: page boundaries reached quickly
@@ -1440,7 +1444,7 @@ func main() {
 		runTrace(tr, 1)
 	}
 	// 4. defragmentation scenarios at chosen fragmentation levels
-	nd := r.N(16, 60)
+	nd := r.N(30, 150)
 	for i := 0; i < nd && (only == "" || only == "defrag"); i++ {
 		// quick: classes with ≤ ~130 slots per page; thorough: also small-slot classes
 		c := len(slots) - 1 - g.Intn(11)
@@ -1448,7 +1452,7 @@ func main() {
 			c = 20 + g.Intn(20)
 		}
 		pattern := i % 5
-		pages := 14 + g.Intn(10)
+		pages := 15 + g.Intn(12)
 		tr := genDefrag(g, fmt.Sprintf("defrag-p%d-class%d#%d", pattern, c, i), c, pages, pattern)
 		runTrace(tr, 97)
 		if i == 0 {
@@ -1461,11 +1465,15 @@ func main() {
 		runTrace(tr, 5003)
 		tr = genDefrag(g, "defrag-p1-class3", 3, 14, 1)
 		runTrace(tr, 5003)
+		tr = genDefrag(g, "defrag-p2-class9", 9, 16, 2)
+		runTrace(tr, 5003)
+		tr = genDefrag(g, "defrag-p0-class15", 15, 18, 0)
+		runTrace(tr, 5003)
 	}
 
 	// 5. concurrent stream: 2..16 goroutines
 	for _, w := range []int{2, 3, 4, 8, 16} {
-		for k := 0; k < r.N(1, 6) && (only == "" || only == "conc"); k++ {
+		for k := 0; k < r.N(2, 8) && (only == "" || only == "conc"); k++ {
 			hint := len(slots) - 1 - g.Intn(10)
 			runConcurrent(fmt.Sprintf("conc-w%d-%d", w, k), g, w, 4, r.N(400, 2500), bs, hint)
 		}
@@ -1480,6 +1488,7 @@ func main() {
 		"DefragAllImproved runs while no Malloc/Free is in progress (as its comment requires)",
 		"every Malloc/Free body runs under the per-class mutex: one model step per call covers all interleavings of calls; memory-level races are outside the model (the concurrent stream explores them on the real code only)",
 		"the doubly linked free lists are abstracted to lists in the model; pointer-chain consistency is checked on the real allocator by walking next/prev in both directions",
+		"sort.Slice is not stable: the model takes the evacuation order observed on the real allocator and checks it against the selection rule (sorted by used, stop when recordsToFree >= target); theorems hold for every legal order",
 	}
 	r.Finish("corpus: every size-class boundary (slot-1, slot, slot+1 for all classes of the generated table), the private-mapping boundaries and 200 KiB; page-edge traces; random mixed traces; single-class traces; defragmentation scenarios at 5 fragmentation patterns (uniform, whole pages emptied, equal use on every page, at the 12-page threshold, everything freed) each followed by an aftermath and a second pass; 2..16-goroutine phases with barrier checks and defrag. distinct = distinct traces (name, length, middle op); every trace reaches Malloc and Free on the real allocator",
 		"single-threaded traces are compared step by step with the Lean model (address, Len/Cap, counters, complete per-class state incl. free-list order, relocate sequence); independently of the model the property predicate is evaluated on the real allocator: fill pattern on free/relocate/end, overlap registry over all live slot ranges, Len/Cap/Data, Allocs = live, slot-by-slot 'live xor on free list', relocate exactly once")
